@@ -5,10 +5,10 @@ CONSTANTS
   Valid = {"ks1"}
   Attr <- MCAttr
   NHosts = 2
-  MaxOps = 3
+  MaxOps = 4
   StoreUnderReadLock = FALSE
-  ReopenForgetsKs = FALSE
+  SelectIgnoresFailure = FALSE
+  ReopenForgetsKs = TRUE
   FailKeepsLock = FALSE
-  SelectIgnoresFailure = TRUE
-INVARIANTS OnlyValidKs NoBrokenSession
+INVARIANTS ForwardInClientKs NoLockLeak
 CHECK_DEADLOCK FALSE
